@@ -609,12 +609,10 @@ func checkC13(w *World, r *Report) {
 				}
 				switch c.Call.StaticCallee() {
 				case callA:
-					v := c.Call.Args[1]
-					if mi, ok := v.(*ssa.MakeInterface); ok {
-						v = mi.X
-					}
-					if g, ok := v.(*ssa.Function); ok {
-						sites = append(sites, regSite{strings.ReplaceAll(strings.ToLower(g.Name()), "_", "-"), fn, g.String(), c.Pos()})
+					for _, g := range w.regFuncsOfArg(c.Call.Args[1], 0) {
+						if g.Parent() == nil {
+							sites = append(sites, regSite{strings.ReplaceAll(strings.ToLower(g.Name()), "_", "-"), fn, g.String(), c.Pos()})
+						}
 					}
 				case callB:
 					if s, ok := constString(c.Call.Args[1]); ok {
@@ -942,7 +940,7 @@ func checkC17(w *World, r *Report) {
 	// line the reader stops at, so the reader never takes lines of the program for preamble (which shifts every
 	// row, and loses a leading ';; $MODULE' line)
 	r.include("C17.preamble-", "C15.", "the preamble the writer puts before a program always ends in the blank line its reader stops at: no line of the program is consumed as preamble, so every row is counted from the program's first line", checkC15, func(rule string) bool {
-		return rule == "C15.format"
+		return rule == "C15.format" || rule == "C15.stop"
 	})
 	r.rule("C17.carrier", "errors coming back from nested evaluation are not re-positioned on the way up (the innermost position survives): shared with C03.propagate; the lookup error of a symbol is positioned at the symbol")
 	// provenance in types/positiontype.go
@@ -951,38 +949,22 @@ func checkC17(w *World, r *Report) {
 		if !isPositionFn(fn) {
 			continue
 		}
-		for _, b := range fn.Blocks {
-			for _, in := range b.Instrs {
-				st, ok := in.(*ssa.Store)
-				if !ok {
-					continue
-				}
-				fa, ok := st.Addr.(*ssa.FieldAddr)
-				if !ok {
-					continue
-				}
-				if _, name, ok := w.namedStruct(fa.X.Type()); !ok || name != "Position" {
-					continue
-				}
-				if al, ok := fa.X.(*ssa.Alloc); !ok || al.Comment != "complit" {
-					continue
-				}
-				dst := fieldName(fa.X.Type(), fa.Field)
-				src, from := positionSource(st.Val)
-				if src == "" {
-					continue // constants, parameters (row/col), fresh copies of the module string
-				}
-				np++
-				ok2 := src == dst
-				detail := dst + " <- " + from + "." + src
-				// Close: begin fields from the receiver, end fields from the argument
-				if fn.Name() == "Close" && ok2 {
-					recv := fn.Params[0].Name()
-					wantRecv := strings.HasPrefix(dst, "Begin") || dst == "Module"
-					ok2 = (from == recv) == wantRecv
-				}
-				r.check(ok2, "C17.provenance", fn, "field "+dst, st.Pos(), detail, "cross-wired position field: "+detail)
+		for _, pw := range positionFieldWrites(w, fn, true) {
+			dst := pw.field
+			src, from := positionSource(pw.val)
+			if src == "" {
+				continue // constants, parameters (row/col), fresh copies of the module string
 			}
+			np++
+			ok2 := src == dst
+			detail := dst + " <- " + from + "." + src
+			// Close: begin fields from the receiver, end fields from the argument
+			if fn.Name() == "Close" && ok2 {
+				recv := fn.Params[0].Name()
+				wantRecv := strings.HasPrefix(dst, "Begin") || dst == "Module"
+				ok2 = (from == recv) == wantRecv
+			}
+			r.check(ok2, "C17.provenance", fn, "field "+dst, pw.pos, detail, "cross-wired position field: "+detail)
 		}
 	}
 	r.floor("C17.provenance", "position fields copied from other positions", np, 12)
@@ -1214,6 +1196,17 @@ func checkC17(w *World, r *Report) {
 				continue
 			}
 			nRet++
+			if c, isCall := v.(*ssa.Call); isCall {
+				// built by a constructor of the package that stores its parameters: the pointers handed to it
+				if fields := thinPositionCtor(w, c.Call.StaticCallee()); fields != nil {
+					for fi, pi := range fields {
+						if _, isPtr := structField(types.NewPointer(positionStruct(c.Call.StaticCallee())), fi).Type().Underlying().(*types.Pointer); isPtr && !freshOrNil(c.Call.Args[pi], 0) {
+							okDeep = false
+						}
+					}
+					continue
+				}
+			}
 			al, ok := v.(*ssa.Alloc)
 			if !ok {
 				okDeep = false
@@ -1362,6 +1355,17 @@ func checkC17(w *World, r *Report) {
 				if c, ok := in.(*ssa.Call); ok {
 					if callee := c.Call.StaticCallee(); callee != nil && callee.Parent() == m.EVAL && calledWhereDefined(c) {
 						closureCalls[callee] = append(closureCalls[callee], c)
+					} else if callee != nil && callee.Parent() == nil && callee.Pkg == m.EVAL.Pkg && !m.isCore(callee) && callee.Object() != nil && !callee.Object().Exported() && len(callee.Blocks) > 0 && !e.escapedFn(callee) {
+						// an unexported function of the package called from the loop: its form parameters are what the loop hands it
+						only := true
+						for _, site := range e.callSites(callee) {
+							if site.Parent() != m.EVAL {
+								only = false
+							}
+						}
+						if only {
+							closureCalls[callee] = append(closureCalls[callee], c)
+						}
 					}
 				}
 			}
@@ -1549,6 +1553,15 @@ func checkC19(w *World, r *Report) {
 	r.rule("C19.lnotation", "the L-notation constructors return the same Go types the reader builds (Symbol, List, Vector, HashMap, Set)")
 	r.rule("C19.wrap", "wherever lisp code splices file text into a form to be read (load-file in the header and in bootstrap.lisp) the literal that follows the file text begins with a line break, so a final comment without newline cannot swallow the closing text; the sibling definitions agree")
 	r.rule("C19.repl", "REPL is READ, then EVAL, then PRINT with the same scope and context and nothing else")
+	// typed at the prompt over several lines a program is the text it would be in a file: the lines reach the
+	// reader joined by the line breaks they were typed with (a comment ends at its line break)
+	r.rule("C19.repl-lines", "the interactive REPL joins the lines it has accumulated with a line break before it hands them to the reader: a comment inside a form typed over several lines ends where it ends in a file")
+	replJoinRule(w, r, "C19.repl-lines")
+	// an AST printed and read again (AddPreamble, a program re-read from its printed form) is the same AST: the
+	// printer's form of a keyword is the one text the reader turns back into that keyword
+	r.include("C19.reprint-", "C06.", "a program printed and read again is the same program: a keyword is printed as the keyword character followed by its name with exactly the leading marker stripped, and the marker is one constant everywhere", checkC06, func(rule string) bool {
+		return rule == "C06.brackets" || rule == "C06.marker" || rule == "C06.keyword"
+	})
 	r.rule("C19.nil-cursor", "every dereference of an optional position pointer in the evaluator, lisperror and printer is nil-guarded (audited by C04.site / C05.site with Cursor, cursor, Module and outer treated as may-nil fields)")
 	// "wrapped in a single do" and "loaded with load-file" (which reads (do <file> nil)) mean what the forms mean
 	// one by one only if do evaluates every form, in order, whatever kind of form it is
@@ -1973,6 +1986,7 @@ func checkC20(w *World, r *Report) {
 	recoverDirectRule(w, r, "C20.recover-direct")
 	r.rule("C20.error-result", "the error a bound function returns is the error the caller gets: NewLispError, which positions it at the call form, returns the very object it was given (a LispError as is, anything else stored whole), never something dug out of its chain (shared with C03.object)")
 	newLispErrorRule(w, r, "C20.error-result")
+	builtinErrorMappedRule(w, r, "C20.mapped")
 	// "a panic inside it becomes a catchable error that still wraps the original": the chain is walked through
 	// LispError.Unwrap, one link at a time
 	unwrapRule(w, r, nil, e, "C20.error-result")
@@ -3360,26 +3374,42 @@ func checkC20(w *World, r *Report) {
 				if idx < 0 {
 					continue
 				}
-				bounds := sliceLiteralElems(c.Call.Args[idx+1])
-				if len(bounds) == 0 {
-					continue
+				// the registrations made at this site: the one written out, or the rows of a table walked by a loop
+				type reg struct {
+					v      ssa.Value
+					bounds []ssa.Value
 				}
-				nb++
-				v := c.Call.Args[idx]
-				if mi, ok := v.(*ssa.MakeInterface); ok {
-					v = mi.X
+				var regs []reg
+				if bounds := sliceLiteralElems(c.Call.Args[idx+1]); len(bounds) > 0 {
+					regs = append(regs, reg{c.Call.Args[idx], bounds})
+				} else {
+					for _, row := range tableRows(c.Call.Args[idx], c.Call.Args[idx+1]) {
+						if row[1] == nil {
+							continue
+						}
+						if bounds := sliceLiteralElems(row[1]); len(bounds) > 0 {
+							regs = append(regs, reg{row[0], bounds})
+						}
+					}
 				}
-				variadic := false
-				if sig, ok := v.Type().Underlying().(*types.Signature); ok {
-					variadic = sig.Variadic()
+				for _, rg := range regs {
+					nb++
+					v, bounds := rg.v, rg.bounds
+					if mi, ok := v.(*ssa.MakeInterface); ok {
+						v = mi.X
+					}
+					variadic := false
+					if sig, ok := v.Type().Underlying().(*types.Signature); ok {
+						variadic = sig.Variadic()
+					}
+					okB := variadic
+					if len(bounds) == 2 {
+						k0, ok0 := bounds[0].(*ssa.Const)
+						k1, ok1 := bounds[1].(*ssa.Const)
+						okB = okB && ok0 && ok1 && k0.Int64() <= k1.Int64() && k0.Int64() >= 0
+					}
+					r.check(okB, "C20.bounds-decl", fn, "explicit bounds for "+describeVal(e, v, 0), c.Pos(), "variadic function, min <= max", "explicit bounds on a non-variadic function or min > max: registration panics at load time")
 				}
-				okB := variadic
-				if len(bounds) == 2 {
-					k0, ok0 := bounds[0].(*ssa.Const)
-					k1, ok1 := bounds[1].(*ssa.Const)
-					okB = okB && ok0 && ok1 && k0.Int64() <= k1.Int64() && k0.Int64() >= 0
-				}
-				r.check(okB, "C20.bounds-decl", fn, "explicit bounds for "+describeVal(e, v, 0), c.Pos(), "variadic function, min <= max", "explicit bounds on a non-variadic function or min > max: registration panics at load time")
 			}
 		}
 	}
@@ -5775,22 +5805,15 @@ func moduleAsGivenRule(w *World, r *Report, e *Engine, rule string) {
 		if nameParam == nil {
 			continue
 		}
-		for _, b := range fn.Blocks {
-			for _, in := range b.Instrs {
-				st, ok := in.(*ssa.Store)
-				if !ok {
+		{
+			for _, pw := range positionFieldWrites(w, fn, false) {
+				if pw.field != "Module" {
 					continue
 				}
-				fa, ok := st.Addr.(*ssa.FieldAddr)
-				if !ok || fieldName(fa.X.Type(), fa.Field) != "Module" {
-					continue
-				}
-				if _, name, ok := w.namedStruct(fa.X.Type()); !ok || name != "Position" {
-					continue
-				}
+				st := pw
 				n++
 				okName := false
-				if cell, isCell := st.Val.(*ssa.Alloc); isCell {
+				if cell, isCell := pw.val.(*ssa.Alloc); isCell {
 					stores := 0
 					onlyParam := true
 					for _, ref := range *cell.Referrers() {
@@ -5803,7 +5826,7 @@ func moduleAsGivenRule(w *World, r *Report, e *Engine, rule string) {
 					}
 					okName = stores >= 1 && onlyParam
 				}
-				r.check(okName, rule, fn, "module name stored in the position", st.Pos(), "the name parameter as given", "the module name is rewritten before it is stored ("+describeVal(e, st.Val, 0)+"): positions - and so every run-time error - name a module other than the one the program was read under")
+				r.check(okName, rule, fn, "module name stored in the position", st.pos, "the name parameter as given", "the module name is rewritten before it is stored ("+describeVal(e, st.val, 0)+"): positions - and so every run-time error - name a module other than the one the program was read under")
 			}
 		}
 	}
@@ -5840,6 +5863,9 @@ func seqErrorUsedRule(w *World, r *Report, e *Engine, rule string) {
 				}
 				if okV, _ := e.hasType(c.Call.Args[0], vecT, c.Block()); okV {
 					continue
+				}
+				if typedOnAllPaths(e, c.Call.Args[0], c.Block(), []types.Type{listT, vecT}, map[*ssa.BasicBlock]bool{}) {
+					continue // `case List, Vector:`
 				}
 				errEx := extractOf(c, 1)
 				tested := false
@@ -6062,4 +6088,263 @@ func derivedNameExtra(e *Engine, v ssa.Value, depth int) string {
 		}
 	}
 	return ""
+}
+
+// typedOnAllPaths: every path from the entry of the function to block b takes the true edge of a checked
+// assertion of v to one of the types ts (the shared arm `case A, B:` of a type switch), or passes a block where
+// one of them is an established fact.
+func typedOnAllPaths(e *Engine, v ssa.Value, b *ssa.BasicBlock, ts []types.Type, seen map[*ssa.BasicBlock]bool) bool {
+	if seen[b] {
+		return true
+	}
+	seen[b] = true
+	for _, t := range ts {
+		if ok, _ := e.hasType(v, t, b); ok {
+			return true
+		}
+	}
+	if len(b.Preds) == 0 {
+		return false
+	}
+	for _, p := range b.Preds {
+		if iff := blockIf(p); iff != nil && p.Succs[0] == b && p.Succs[1] != b {
+			if ex, ok := iff.Cond.(*ssa.Extract); ok && ex.Index == 1 {
+				if ta, ok := ex.Tuple.(*ssa.TypeAssert); ok && ta.CommaOk && ta.X == v {
+					hit := false
+					for _, t := range ts {
+						if types.Identical(ta.AssertedType, t) {
+							hit = true
+						}
+					}
+					if hit {
+						continue
+					}
+				}
+			}
+		}
+		if !typedOnAllPaths(e, v, p, ts, seen) {
+			return false
+		}
+	}
+	return true
+}
+
+// posWrite: one field of a Position a function fills in, directly in a literal or through a constructor of the
+// package that only stores its parameters.
+type posWrite struct {
+	field string
+	val   ssa.Value
+	pos   token.Pos
+}
+
+func positionStruct(fn *ssa.Function) types.Type {
+	t := fn.Signature.Results().At(0).Type()
+	if p, ok := t.(*types.Pointer); ok {
+		return p.Elem()
+	}
+	return t
+}
+
+// thinPositionCtor: fn is an unexported function of package types that returns the one Position literal it
+// builds and stores nothing in it but its own parameters: field number -> parameter number.
+func thinPositionCtor(w *World, fn *ssa.Function) map[int]int {
+	if fn == nil || len(fn.Blocks) != 1 || fn.Object() == nil || fn.Object().Exported() || fn.Signature.Recv() != nil || fn.Signature.Results().Len() != 1 || fnPkgPath(fn) != modPath+"/types" {
+		return nil
+	}
+	if _, name, ok := w.namedStruct(fn.Signature.Results().At(0).Type()); !ok || name != "Position" {
+		return nil
+	}
+	out := map[int]int{}
+	var lit *ssa.Alloc
+	for _, in := range fn.Blocks[0].Instrs {
+		switch x := in.(type) {
+		case *ssa.Alloc:
+			if lit != nil {
+				return nil
+			}
+			lit = x
+		case *ssa.FieldAddr:
+			if x.X != ssa.Value(lit) {
+				return nil
+			}
+		case *ssa.Store:
+			fa, ok := x.Addr.(*ssa.FieldAddr)
+			p, isParam := x.Val.(*ssa.Parameter)
+			if !ok || !isParam {
+				return nil
+			}
+			for i, q := range fn.Params {
+				if q == p {
+					out[fa.Field] = i
+				}
+			}
+		case *ssa.Return:
+			if len(x.Results) != 1 || x.Results[0] != ssa.Value(lit) {
+				return nil
+			}
+		case *ssa.DebugRef:
+		default:
+			return nil
+		}
+	}
+	if lit == nil {
+		return nil
+	}
+	return out
+}
+
+func positionFieldWrites(w *World, fn *ssa.Function, literalsOnly bool) []posWrite {
+	var out []posWrite
+	for _, b := range fn.Blocks {
+		for _, in := range b.Instrs {
+			switch x := in.(type) {
+			case *ssa.Store:
+				fa, ok := x.Addr.(*ssa.FieldAddr)
+				if !ok {
+					continue
+				}
+				if _, name, ok := w.namedStruct(fa.X.Type()); !ok || name != "Position" {
+					continue
+				}
+				if al, ok := fa.X.(*ssa.Alloc); literalsOnly && (!ok || al.Comment != "complit") {
+					continue
+				}
+				out = append(out, posWrite{fieldName(fa.X.Type(), fa.Field), x.Val, x.Pos()})
+			case *ssa.Call:
+				callee := x.Call.StaticCallee()
+				fields := thinPositionCtor(w, callee)
+				if fields == nil {
+					continue
+				}
+				var idx []int
+				for fi := range fields {
+					idx = append(idx, fi)
+				}
+				sort.Ints(idx)
+				for _, fi := range idx {
+					out = append(out, posWrite{fieldName(types.NewPointer(positionStruct(callee)), fi), x.Call.Args[fields[fi]], x.Pos()})
+				}
+			}
+		}
+	}
+	return out
+}
+
+// builtinErrorMappedRule: the adapters hand the bound function's error back as the Go error it is; it becomes a
+// lisp error where the evaluator calls the builtin: there every error of that call leaves wrapped by
+// NewLispError. An error that leaves raw takes catch's route for foreign errors: the handler is bound to its
+// text, and the object the function returned is lost to the program.
+func builtinErrorMappedRule(w *World, r *Report, rule string) {
+	r.rule(rule, "in the evaluator (EVAL and the functions of its package it is built from) every return that hands on the error of a call through types.Func.Fn hands it on wrapped by NewLispError, on every path: the error result of a bound function always reaches the program as a lisp error")
+	ev := w.Fn("", "EVAL")
+	if ev == nil {
+		r.undecided(rule, nil, "EVAL", token.NoPos, "function no longer resolves")
+		return
+	}
+	n := 0
+	for _, fn := range w.withPkgHelpers(ev) {
+		if fn == nil {
+			continue
+		}
+		for _, b := range fn.Blocks {
+			for _, in := range b.Instrs {
+				c, ok := in.(*ssa.Call)
+				if !ok || c.Call.StaticCallee() != nil || c.Call.IsInvoke() {
+					continue
+				}
+				var holder types.Type
+				switch x := c.Call.Value.(type) {
+				case *ssa.Field:
+					holder = x.X.Type()
+				case *ssa.UnOp:
+					if fa, ok := x.X.(*ssa.FieldAddr); ok {
+						holder = fa.X.Type()
+					}
+				}
+				if holder == nil {
+					continue
+				}
+				if _, name, ok := w.namedStruct(holder); !ok || name != "Func" {
+					continue
+				}
+				errEx := extractOf(c, 1)
+				if errEx == nil {
+					continue
+				}
+				ei := hasErrorResult(fn)
+				for _, d := range fn.Blocks {
+					iff := blockIf(d)
+					if iff == nil || ei < 0 {
+						continue
+					}
+					bo, ok := iff.Cond.(*ssa.BinOp)
+					if !ok || !isNilConst(bo.Y) || bo.X != ssa.Value(errEx) || (bo.Op != token.NEQ && bo.Op != token.EQL) {
+						continue
+					}
+					edge := 0
+					if bo.Op == token.EQL {
+						edge = 1
+					}
+					for _, rb := range fn.Blocks {
+						if len(rb.Instrs) == 0 || !edgeDominates(d, edge, rb) {
+							continue
+						}
+						ret, ok := rb.Instrs[len(rb.Instrs)-1].(*ssa.Return)
+						if !ok || ei >= len(ret.Results) {
+							continue
+						}
+						evv := resolveRet(ret.Results[ei])
+						n++
+						wrapped := true
+						var walk func(v ssa.Value, depth int)
+						walk = func(v ssa.Value, depth int) {
+							if depth > 6 {
+								wrapped = false
+								return
+							}
+							switch y := v.(type) {
+							case *ssa.MakeInterface:
+								walk(y.X, depth+1)
+							case *ssa.ChangeInterface:
+								walk(y.X, depth+1)
+							case *ssa.Phi:
+								for _, op := range y.Edges {
+									walk(op, depth+1)
+								}
+							case *ssa.Call:
+								g := y.Call.StaticCallee()
+								switch {
+								case g == nil:
+									wrapped = false
+								case g.Name() == "NewLispError":
+								case inModule(g) && len(g.Blocks) > 0 && g.Signature.Results().Len() == 1:
+									// a function of the module (or a literal of this one) every return of which wraps
+									nr := 0
+									for _, gb := range g.Blocks {
+										if len(gb.Instrs) == 0 || gb == g.Recover {
+											continue
+										}
+										if gr, ok := gb.Instrs[len(gb.Instrs)-1].(*ssa.Return); ok && len(gr.Results) == 1 {
+											nr++
+											walk(resolveRet(gr.Results[0]), depth+1)
+										}
+									}
+									if nr == 0 {
+										wrapped = false
+									}
+								default:
+									wrapped = false
+								}
+							default:
+								wrapped = false
+							}
+						}
+						walk(evv, 0)
+						r.check(wrapped, rule, fn, "error of the builtin handed on", ret.Pos(), "wrapped by NewLispError", "on this path the error the bound function returned leaves the evaluator as it is ("+describeVal(newEngine(w), evv, 0)+"): it is no lisp error, catch binds its text instead of the object, and unwrap-error / type? see a string")
+					}
+				}
+			}
+		}
+	}
+	r.floor(rule, "returns handing on a builtin's error", n, 1)
 }
